@@ -6,15 +6,20 @@
 package textforms
 
 import (
+	"bytes"
+	"context"
 	"fmt"
 	"math/big"
+	"net/http"
+	"net/http/httptest"
 	"os"
 	"strconv"
 	"testing"
 	"time"
 
 	"github.com/ovh/kmip-go"
-	_ "github.com/ovh/kmip-go/payloads"
+	"github.com/ovh/kmip-go/kmipserver"
+	"github.com/ovh/kmip-go/payloads"
 	"github.com/ovh/kmip-go/ttlv"
 
 	"verifharness/vh"
@@ -383,4 +388,139 @@ func TestDocs(t *testing.T) {
 		out.Emit(r)
 	}
 	out.Emit(map[string]any{"summary": true, "docs": len(docs)})
+}
+
+// ---------------------------------------------------------------- TestShapes (spec/TextShapes.tla)
+
+type Shape struct {
+	ID     int    `json:"id"`
+	Enc    string `json:"enc"`
+	Target string `json:"target"` // RequestMessage | ResponseMessage
+	Doc    string `json:"doc"`
+}
+
+type decOut struct {
+	Outcome string // value | error | panic | timeout
+	Detail  string
+	Bin     string
+}
+
+func decodeShape(enc string, doc []byte, ptr any) decOut {
+	ch := make(chan decOut, 1)
+	go func() {
+		var o decOut
+		defer func() {
+			if r := recover(); r != nil {
+				o = decOut{Outcome: "panic", Detail: vh.PanicSig(r)}
+			}
+			ch <- o
+		}()
+		var err error
+		switch enc {
+		case "xml":
+			err = ttlv.UnmarshalXML(doc, ptr)
+		case "json":
+			err = ttlv.UnmarshalJSON(doc, ptr)
+		}
+		if err != nil {
+			o = decOut{Outcome: "error", Detail: err.Error()}
+			return
+		}
+		o = decOut{Outcome: "value"}
+		func() {
+			defer func() {
+				if r := recover(); r != nil {
+					o.Bin = "reencode-panic:" + vh.PanicSig(r)
+				}
+			}()
+			o.Bin = fmt.Sprintf("%x", ttlv.MarshalTTLV(ptr))
+		}()
+	}()
+	select {
+	case o := <-ch:
+		return o
+	case <-time.After(10 * time.Second):
+		return decOut{Outcome: "timeout"}
+	}
+}
+
+func shapeExecutor() *kmipserver.BatchExecutor {
+	ex := kmipserver.NewBatchExecutor()
+	ex.Route(kmip.OperationGet, kmipserver.HandleFunc(func(ctx context.Context, req *payloads.GetRequestPayload) (*payloads.GetResponsePayload, error) {
+		return nil, kmipserver.ErrItemNotFound
+	}))
+	ex.Route(kmip.OperationRegister, kmipserver.HandleFunc(func(ctx context.Context, req *payloads.RegisterRequestPayload) (*payloads.RegisterResponsePayload, error) {
+		return &payloads.RegisterResponsePayload{UniqueIdentifier: "new-1"}, nil
+	}))
+	return ex
+}
+
+var contentType = map[string]string{"xml": "text/xml", "json": "application/json"}
+
+func TestShapes(t *testing.T) {
+	shapes, err := vh.ReadNDJSON[Shape](vh.Env("VERIF_CASES", "shapes.ndjson"))
+	if err != nil {
+		t.Fatal(err)
+	}
+	out, err := vh.NewWriter(vh.Env("VERIF_OUT", "shapes.out.ndjson"))
+	if err != nil {
+		t.Fatal(err)
+	}
+	defer out.Close()
+	hdl := kmipserver.NewHTTPHandler(shapeExecutor())
+	for _, s := range shapes {
+		r := map[string]any{"id": s.ID}
+		newPtr := func() any { return new(kmip.RequestMessage) }
+		if s.Target == "ResponseMessage" {
+			newPtr = func() any { return new(kmip.ResponseMessage) }
+		}
+		orig := []byte(s.Doc)
+		in := append([]byte(nil), orig...)
+		d1 := decodeShape(s.Enc, in, newPtr())
+		r["unchanged"] = string(in) == string(orig)
+		d2 := decodeShape(s.Enc, in, newPtr())
+		r["first"], r["second"] = d1, d2
+		var generic ttlv.Value
+		dg := decodeShape(s.Enc, append([]byte(nil), orig...), &generic)
+		dg.Bin = ""
+		r["generic"] = dg
+		if s.Target == "RequestMessage" {
+			// the HTTP transport: the handler must return normally and answer
+			func() {
+				rec := httptest.NewRecorder()
+				req := httptest.NewRequest(http.MethodPost, "/kmip", bytes.NewReader(orig))
+				req.Header.Set("Content-Type", contentType[s.Enc])
+				req.Header.Set("Content-Length", strconv.Itoa(len(orig)))
+				h := map[string]any{}
+				defer func() {
+					if rr := recover(); rr != nil {
+						h["panic"] = vh.PanicSig(rr)
+					}
+					r["http"] = h
+				}()
+				if len(orig) == 0 {
+					h["skipped"] = "empty body"
+					return
+				}
+				hdl.ServeHTTP(rec, req)
+				h["status"] = rec.Code
+				body := rec.Body.Bytes()
+				h["body_len"] = len(body)
+				var resp kmip.ResponseMessage
+				do := decodeShape(s.Enc, body, &resp)
+				h["body_decode"] = do.Outcome
+				if do.Outcome == "value" {
+					h["items"] = len(resp.BatchItem)
+					if len(resp.BatchItem) > 0 {
+						h["status0"] = ttlv.EnumStr(resp.BatchItem[0].ResultStatus)
+						h["reason0"] = ttlv.EnumStr(resp.BatchItem[0].ResultReason)
+					}
+				} else {
+					h["body_detail"] = do.Detail
+				}
+			}()
+		}
+		out.Emit(r)
+	}
+	out.Emit(map[string]any{"summary": true, "shapes": len(shapes)})
 }
